@@ -1006,7 +1006,7 @@ def verify_hdf5(spec, rec, out, S, src_ds, want, exp, k, tag, eff_filtered,
         explog = [x for x in lg.keys() if x.startswith("dclab-export_")]
         rec.check(len(explog) == 1, "log/export-log", f"{list(lg.keys())}")
         if explog:
-            lines = [x.decode("utf-8") if isinstance(x, bytes) else x
+            lines = [x.decode("utf-8", errors="replace") if isinstance(x, bytes) else x
                      for x in lg[explog[0]][:]]
             try:
                 kwl = json.loads("\n".join(lines))["kwargs"]
@@ -1026,7 +1026,8 @@ def verify_hdf5(spec, rec, out, S, src_ds, want, exp, k, tag, eff_filtered,
                           f"log/names/{tag}", f"{others} vs source {sorted(S.logs)}")
                 for nm, ll in sorted(S.logs.items()):
                     if pre + nm in lg:
-                        got = [x.decode("utf-8") for x in lg[pre + nm][:]]
+                        got = [x.decode("utf-8", errors="replace")
+                               for x in lg[pre + nm][:]]
                         rec.check(got == list(ll), f"log/lines/{tag}",
                                   lambda: f"{nm}: {got} vs {ll}")
             else:
